@@ -443,7 +443,8 @@ def dyadic_contracts(plan, tier):
     fc_mult2k = FnContract(wd, "DyadicMatrix.mult2k", [
         Case("k:int", {"self": DM, "k": Int}, requires=lambda a: Not(all_zero(entries(a.self))),
              ensures=lambda o, r, nw: same_value(r, entries(o.self), o.self.k - 2 * o.k),
-             raises={"OverflowError": lambda o: True})])
+             # k == 0 returns self: LIT(x, 0) == x (defining equation) for the entries
+             axioms=lambda o, r, nw: [ax for x in entries(o.self) for ax in lit_axioms(x, [])])])
     for fc in (fc_norm, fc_init, fc_add, fc_matmul, fc_mul, fc_conj, fc_adj2, fc_mult2k):
         plan.fn_under_contract(fc.world.file, fc.qualname)
         for ob in obligations_for("C16", fc, tier):
@@ -492,13 +493,50 @@ def n_divideso(d, x):
     return all(c % nd == 0 for c in p)
 
 
+_RING_SPECS = {}
+
+
+def ring_specs():
+    """per ring: (type, view, mul, sub, native divisibility test, DIV predicate, closure-axiom instances, arbitrary divisor D0, zero).
+    DIV(d, x) -- `d divides x` -- is uninterpreted and used through  x == m*d => DIV(d, x)  and the closure properties of
+    divisibility in a commutative ring (lemmas divisibility/*)."""
+    if _RING_SPECS:
+        return _RING_SPECS
+    for nm, T_, view, mul_, sub_, n_div, arity in (("ZSqrtTwo", Z2, v2, mul2, sub2, n_divides2, 2), ("ZOmega", ZO, vo, mulo, subo, n_divideso, 4)):
+        DIV = z3.Function(f"divides_{nm}", *([z3.IntSort()] * (2 * arity)), z3.BoolSort())
+        D0 = tuple(z3.Int(f"d0_{nm}_{i}") for i in range(arity))        # an ARBITRARY candidate divisor
+        zero = tuple([0] * arity)
+
+        def div(d, x, DIV=DIV):
+            return DIV(*[S._t(c) for c in d], *[S._t(c) for c in x])
+
+        def closure(d, x, y, q, div=div, mul_=mul_, sub_=sub_, zero=zero):
+            """instances of: d|x and d|y => d | x - q*y ;  d | x <=> d | -x ;  d | 0 ;  d | d"""
+            return [z3.Implies(z3.And(div(d, x), div(d, y)), div(d, sub_(x, mul_(q, y)))),
+                    div(d, x) == div(d, neg(x)), div(d, y) == div(d, neg(y)), div(d, zero), div(d, d)]
+        _RING_SPECS[nm] = (T_, view, mul_, sub_, n_div, div, closure, D0, zero)
+    return _RING_SPECS
+
+
+def div_intro(nm, d, x, m):
+    """x == m*d  =>  d | x   (definition of divisibility)"""
+    T_, view, mul_, sub_, n_div, div, closure, D0, zero = ring_specs()[nm]
+    return z3.Implies(S.to_z3(eqv(x, mul_(m, d))), div(d, x))
+
+
 def mod_gcd_contracts(plan, tier):
     """ring __mod__: the result is +-(self - q*other) for the code's own quotient q (so  {common divisors of self, other} ==
     {common divisors of other, result});  ring _gcd: the loop keeps the set of common divisors, hence the result divides both
     arguments and every common divisor divides the result (gcd up to a unit).  Termination is NOT claimed."""
     from vf.pyvc.engine import fresh
     cell = {}
-    w = World(RINGS, classes={"ZSqrtTwo": {"a": Int, "b": Int}, "ZOmega": {"a": Int, "b": Int, "c": Int, "d": Int}})
+
+    def b_round_any(it, args, kw):
+        """round(n / d) on integers goes through binary64: beyond 2^53 the rounded value need not be the exact one.  The contract of
+        __mod__ is proved for EVERY integer this expression may produce (it only selects which remainder is returned)."""
+        return z3.Int(it.ctx.fresh_name("rounded_float_quotient"))
+    w = World(RINGS, classes={"ZSqrtTwo": {"a": Int, "b": Int}, "ZOmega": {"a": Int, "b": Int, "c": Int, "d": Int}},
+              extra_builtins={"round": b_round_any})
 
     def keep(o, r, nw, loc):
         cell["loc"] = loc
@@ -551,20 +589,7 @@ def mod_gcd_contracts(plan, tier):
 
     # ---- _gcd over a ring: divisibility DIV(d, x) is an uninterpreted predicate used through the closure properties of `d | x` in a
     # commutative ring (each proved below from the definition  x == m*d  with an explicit witness)
-    specs = {}
-    for nm, T_, view, mul_, sub_, n_div, arity in (("ZSqrtTwo", Z2, v2, mul2, sub2, n_divides2, 2), ("ZOmega", ZO, vo, mulo, subo, n_divideso, 4)):
-        DIV = z3.Function(f"divides_{nm}", *([z3.IntSort()] * (2 * arity)), z3.BoolSort())
-        D0 = tuple(z3.Int(f"d0_{nm}_{i}") for i in range(arity))        # an ARBITRARY candidate divisor
-        zero = tuple([0] * arity)
-
-        def div(d, x, DIV=DIV):
-            return DIV(*[S._t(c) for c in d], *[S._t(c) for c in x])
-
-        def closure(d, x, y, q, div=div, mul_=mul_, sub_=sub_, zero=zero):
-            """instances of: d|x and d|y => d | x - q*y ;  d | x <=> d | -x ;  d | 0 ;  d | d"""
-            return [z3.Implies(z3.And(div(d, x), div(d, y)), div(d, sub_(x, mul_(q, y)))),
-                    div(d, x) == div(d, neg(x)), div(d, y) == div(d, neg(y)), div(d, zero), div(d, d)]
-        specs[nm] = (T_, view, mul_, sub_, n_div, div, closure, D0, zero)
+    specs = ring_specs()
 
     def mc_mod(nm):
         T_, view, mul_, sub_, n_div, div, closure, D0, zero = specs[nm]
@@ -786,6 +811,379 @@ def sqrt_mod_contracts(plan, tier):
                                   "modpow(a,e+1,p) == (modpow(a,e,p)*a) % p); ValueError for p == 0")
 
 
+def ring_callee_models():
+    """callee contracts (verified in this module) used by the factorisation functions and by _solve_diophantine"""
+    from vf.pyvc.engine import fresh, to_int_term
+    specs = ring_specs()
+
+    def mc_sqrt_mod(it, args, kwargs):
+        """_sqrt_modulo_p(n, p) by its contract: requires p >= 2; None, or r in [0, p) with r*r == n (mod p)"""
+        n, p = (to_int_term(x) for x in args)
+        ctx = it.ctx
+        ctx.prove(p >= 2, "pre-call:_sqrt_modulo_p(p >= 2)")
+        if ctx.branch(z3.Bool(ctx.fresh_name("no_square_root"))):
+            return None
+        r = z3.Int(ctx.fresh_name("sqrt_mod"))
+        ctx.assume(z3.And(r >= 0, r < p, (r * r - n) % p == 0))
+        return r
+
+    def mc_ring_gcd(it, args, kwargs):
+        """_gcd on ring elements by its contract: the result divides both arguments (and every common divisor divides it);
+        ZeroDivisionError is possible; termination is not claimed"""
+        e1, e2 = args
+        ctx = it.ctx
+        if not (isinstance(e1, Rec) and isinstance(e2, Rec) and e1.cls.name == e2.cls.name and e1.cls.name in specs):
+            raise Unsupp("_gcd on these operands")
+        T_, view, mul_, sub_, n_div, div, closure, D0, zero = specs[e1.cls.name]
+        if ctx.branch(z3.Bool(ctx.fresh_name("gcd_raises"))):
+            raise RaiseExc("ZeroDivisionError")
+        res = fresh(ctx, T_, "gcd")
+        ctx.assume(z3.And(div(view(res), view(e1)), div(view(res), view(e2))))
+        ctx.assume(div(D0, view(res)) == z3.And(div(D0, view(e1)), div(D0, view(e2))))
+        return res
+    return mc_sqrt_mod, mc_ring_gcd
+
+
+def factorize_contracts(plan, tier):
+    """_factorize_prime_zsqrt_two(p): every returned factor divides p in Z[sqrt2];  _factorize_prime_zomega(x, p): the returned element
+    divides x (as an element of Z[omega]) -- the divisibility facts behind the candidate `scale` of _solve_diophantine (whose result is
+    re-checked by the code, so its soundness does not depend on them)."""
+    specs = ring_specs()
+    mc_sqrt_mod, mc_ring_gcd = ring_callee_models()
+    ring_classes = {"ZSqrtTwo": (RINGS, {"a": Int, "b": Int}), "ZOmega": (RINGS, {"a": Int, "b": Int, "c": Int, "d": Int})}
+    w = World(NORM, classes=ring_classes, extra_builtins={"_sqrt_modulo_p": mc_sqrt_mod, "_gcd": mc_ring_gcd})
+    div2, closure2 = specs["ZSqrtTwo"][5], specs["ZSqrtTwo"][6]
+    divo, closureo = specs["ZOmega"][5], specs["ZOmega"][6]
+
+    def to_om(x):
+        return (x[0], x[1], 0, -x[1])
+
+    def items(r):
+        from vf.pyvc.engine import PyList
+        return r.items if isinstance(r, PyList) else list(r)
+
+    def z2_post(o, r, nw):
+        if r is None:
+            return True
+        fs = items(r)
+        if len(fs) not in (1, 2):
+            return False
+        if isinstance(fs[0], Rec):
+            return And(*[div2(v2(f), (o.p, 0)) for f in fs])
+        return all(n_divides2(v2(f), (o.p, 0)) for f in fs)
+
+    def z2_axioms(o, r, nw):
+        if r is None:
+            return []
+        out = []
+        pv = (S._t(o.p), z3.IntVal(0))
+        fs = [v2(f) for f in items(r)]
+        for i, f in enumerate(fs):
+            out += closure2(f, pv, pv, (0, 0))
+            for other in fs:
+                out.append(div_intro("ZSqrtTwo", f, pv, other))                        # p == other * f  (the +-2 case)
+            out.append(div_intro("ZSqrtTwo", f, pv, (1, 0)))                           # p == 1 * f      (p inert)
+            # adj2 is a ring automorphism fixing the integers: d | p  =>  adj2(d) | p      (lemma divisibility/adj2)
+            out.append(z3.Implies(div2((f[0], -f[1]), pv), div2(f, pv)))
+        return out
+
+    def zo_post(o, r, nw):
+        x = to_om(v2(o.x))
+        shape = And(Implies(o.p == 2, False if r is None else eqv(vo(r), (1, 1, 0, 0))),
+                    Implies(Or(S.mod(S.mod(o.p, 8), 2) == 0, S.mod(o.p, 8) == 7), Or(o.p == 2, r is None)))
+        if r is None:
+            return shape
+        if isinstance(r, Rec):
+            return And(shape, Or(o.p == 2, divo(vo(r), x)))
+        return shape and (o.p == 2 or n_divideso(vo(r), x))
+    contracts = [
+        FnContract(w, "_factorize_prime_zsqrt_two", [
+            Case("p>=2", {"p": Int}, requires=lambda a: a.p >= 2, ensures=z2_post, axioms=z2_axioms, raises={"ZeroDivisionError": lambda o: True})]),
+        FnContract(w, "_factorize_prime_zomega", [
+            Case("p>=2", {"x": Z2, "p": Int}, requires=lambda a: a.p >= 2, ensures=zo_post, raises={"ZeroDivisionError": lambda o: True})]),
+    ]
+    for fc in contracts:
+        plan.fn_under_contract(NORM, fc.qualname)
+        for ob in obligations_for("C16", fc, tier):
+            plan.add(ob)
+    a_, b_, c_, d_, m0, m1 = z3.Ints("a b c d m0 m1")
+    plan.add(lemma("C16", "divisibility/adj2:x=m*d=>adj2(x)=adj2(m)*adj2(d)", [a_, b_, c_, d_, m0, m1],
+                   z3.And(*[u == v for u, v in zip((a_, -b_), mul2((m0, -m1), (c_, -d_)))]),
+                   assumptions=[z3.And(*[u == v for u, v in zip((a_, b_), mul2((m0, m1), (c_, d_)))])]))
+
+
+def prime_factorize_contracts(plan, tier):
+    """_prime_factorize: the stack loop keeps  prod(factors) * prod(stack) == n  and `every element of factors passed _primality_test`;
+    the returned (sorted) list has product n and consists of integers that passed the primality test."""
+    from vf.pyvc import xmaps as X
+    from vf.pyvc.engine import to_int_term, fresh, SeqT, SeqV, PyList
+    IS = z3.SeqSort(z3.IntSort())
+    PROD = z3.Function("prod", IS, z3.IntSort())
+    ALLP = z3.Function("all_passed_primality_test", IS, z3.BoolSort())
+    POS = z3.Function("all_positive", IS, z3.BoolSort())
+    PT = z3.Function("primality_test", z3.IntSort(), z3.BoolSort())
+
+    def snoc_defs(s_, x):
+        t = z3.Concat(s_, z3.Unit(x))
+        return [PROD(t) == PROD(s_) * x, ALLP(t) == z3.And(ALLP(s_), PT(x)), POS(t) == z3.And(POS(s_), x >= 1)]
+    EMPTY = z3.Empty(IS)
+    base_defs = [PROD(EMPTY) == 1, ALLP(EMPTY), POS(EMPTY)]
+
+    def term_of(v):
+        return v.term if isinstance(v, SeqV) else S.seqterm(w, v, Int)
+
+    def unfold(t, depth=0):
+        """instances of the snoc equations along the syntactic structure of a sequence term (pop = extract, append/extend = concat)"""
+        out = list(base_defs)
+        if depth > 6:
+            return out
+        if z3.is_app_of(t, z3.Z3_OP_SEQ_EXTRACT):
+            b_, off, ln = t.children()
+            last = b_[z3.Length(b_) - 1]
+            out.append(z3.Implies(z3.Length(b_) >= 1, b_ == z3.Concat(z3.Extract(b_, 0, z3.Length(b_) - 1), z3.Unit(last))))
+            out += snoc_defs(z3.Extract(b_, 0, z3.Length(b_) - 1), last) + unfold(b_, depth + 1)
+        elif z3.is_app_of(t, z3.Z3_OP_SEQ_CONCAT):
+            ch = t.children()
+            units = []
+            for c_ in ch:
+                if z3.is_app_of(c_, z3.Z3_OP_SEQ_CONCAT):
+                    units += c_.children()
+                else:
+                    units.append(c_)
+            pre = units[0]
+            out += unfold(pre, depth + 1)
+            for u in units[1:]:
+                if z3.is_app_of(u, z3.Z3_OP_SEQ_UNIT):
+                    out += snoc_defs(pre, u.arg(0))
+                    pre = z3.Concat(pre, u)
+                else:
+                    break
+        elif z3.is_app_of(t, z3.Z3_OP_SEQ_UNIT):
+            out += snoc_defs(EMPTY, t.arg(0)) + [z3.Concat(EMPTY, t) == t]
+        return out
+
+    def b_primality(it, args, kw):
+        x = to_int_term(args[0])
+        it.ctx.assume(z3.Implies(PT(x), x >= 2))          # _primality_test(n) is False for n < 2 (verified below)
+        return PT(x)
+
+    def b_integer_factorize(it, args, kw):
+        """ASSUMED contract of _integer_factorize (Pollard rho, randomised): None, or a divisor g of n with 1 < g < n"""
+        n = to_int_term(args[0])
+        if it.ctx.branch(z3.Bool(it.ctx.fresh_name("no_factor_found"))):
+            return None
+        g = z3.Int(it.ctx.fresh_name("factor"))
+        it.ctx.assume(z3.And(g > 1, g < n, n == g * (n / g), n % g == 0))
+        return g
+
+    def b_sorted(it, args, kw):
+        """ASSUMED contract of sorted(): a permutation of its argument; the product and `all passed the test` are permutation invariant"""
+        v = args[0]
+        t = term_of(v)
+        r = fresh(it.ctx, SeqT(Int), "sorted")
+        it.ctx.assume(z3.And(PROD(r.term) == PROD(t), ALLP(r.term) == ALLP(t), z3.Length(r.term) == z3.Length(t)))
+        return r
+    w = World(NORM, extra_builtins={"_primality_test": b_primality, "_integer_factorize": b_integer_factorize, "sorted": b_sorted})
+
+    def inv(v):
+        f, st = term_of(v.factors), term_of(v.stack)
+        return And(PROD(f) * PROD(st) == v.n, ALLP(f), POS(st), v.n >= 1)
+
+    def inv_axioms(v):
+        return unfold(term_of(v.factors)) + unfold(term_of(v.stack))
+
+    def post(o, r, nw):
+        if r is None:
+            return True
+        if isinstance(r, SeqV):
+            return And(PROD(r.term) == o.n, ALLP(r.term))
+        import importlib
+        import math
+        mod = importlib.import_module("pennylane.ops.op_math.decompositions.norm_solver")
+        test = getattr(mod._primality_test, "__wrapped__", mod._primality_test)
+        return math.prod(r) == o.n and all(test(x) for x in r) and list(r) == sorted(r)
+
+    def native_pf(mod, a):
+        f = getattr(mod._prime_factorize, "__wrapped__", mod._prime_factorize)
+        return f(a["n"], a["max_trials"], a["z_sqrt_two"])
+    fc = FnContract(w, "_prime_factorize", [
+        Case(f"z_sqrt_two={zs}", {"n": Int, "max_trials": Int, "z_sqrt_two": T("const", zs)}, requires=lambda a: And(a.n >= 1, a.max_trials >= 1),
+             native_call=native_pf, native_gen=lambda rng, m: dict(m, n=abs(int(m["n"])) % 5000 + 1, max_trials=50) if rng is not None else m,
+             ensures=post, axioms=lambda o, r, nw: base_defs,
+             loops={0: LoopSpec(inv, types={"factors": SeqT(Int), "stack": SeqT(Int)}, axioms=inv_axioms)}) for zs in (True, False)])
+    fc_pt = FnContract(World(NORM), "_primality_test", [
+        Case("n<2", {"n": Int}, requires=lambda a: a.n < 2, ensures=lambda o, r, nw: r == False,  # noqa: E712
+             native_call=lambda mod, a: getattr(mod._primality_test, "__wrapped__", mod._primality_test)(a["n"]))])
+    for f_ in (fc, fc_pt):
+        X.use_xinterp(f_)
+        plan.fn_under_contract(NORM, f_.qualname)
+        for ob in obligations_for("C16", f_, tier):
+            plan.add(ob)
+    plan.assumed_contracts += ["_integer_factorize(n, tries) (randomised Pollard rho): None, or a divisor g of n with 1 < g < n",
+                               "sorted(list of ints): a permutation (product and element-wise predicates are permutation invariant)"]
+
+
+# x * sqrt2^n in Z[sqrt2], by iteration of the linear map (a, b) -> (2b, a):   LIT2(x, 0) = x,   LIT2(x, n+1) = LIT2(x*sqrt2, n)
+LIT2 = [z3.Function(f"LITs{i}", *([z3.IntSort()] * 4)) for i in range(2)]
+
+
+def mul_sqrt2_2(x):
+    return (2 * x[1], x[0])
+
+
+def lit2_spec(x, n):
+    if isinstance(n, int) and all(isinstance(c, int) for c in x):
+        for _ in range(n):
+            x = mul_sqrt2_2(x)
+        return tuple(x)
+    return tuple(LIT2[i](x[0], x[1], n) for i in range(2))
+
+
+def lit2_axioms(x, ns):
+    x = tuple(z3.IntVal(c) if isinstance(c, int) else c for c in x)
+    out = [z3.And(*[p == q for p, q in zip(lit2_spec(x, z3.IntVal(0)), x)])]
+    for n in ns:
+        n = z3.IntVal(n) if isinstance(n, int) else n
+        out.append(z3.Implies(n >= 0, z3.And(*[p == q for p, q in zip(lit2_spec(x, n + 1), lit2_spec(mul_sqrt2_2(x), n))])))
+    return out
+
+
+def so3_contracts(plan, tier):
+    """SO3Matrix: the denoted value is (1/sqrt2)^k * so3mat (3x3 over Z[sqrt2]).  normalize preserves it; __matmul__ denotes the matrix
+    product of the denoted values (and multiplies the underlying dyadic matrices)."""
+    from vf.pyvc import xmaps as X
+    from vf.pyvc.engine import fresh, PyList, ListT
+    DM = RecT("DyadicMatrix")
+    ring = {"ZSqrtTwo": {"a": Int, "b": Int}, "ZOmega": {"a": Int, "b": Int, "c": Int, "d": Int},
+            "DyadicMatrix": {"a": ZO, "b": ZO, "c": ZO, "d": ZO, "k": Int}, "SO3Matrix": {"matrix": DM, "k": Int, "so3mat": Int}}
+
+    def mk_so3(ctx, name):
+        rows = PyList([PyList([fresh(ctx, Z2, f"{name}.m{i}{j}") for j in range(3)]) for i in range(3)])
+        return Rec(wn.classes["SO3Matrix"], {"matrix": fresh(ctx, DM, f"{name}.matrix"), "k": z3.Int(ctx.fresh_name(f"{name}.k")), "so3mat": rows})
+
+    def gen_so3(rng):
+        zo = lambda: {"__class__": "ZOmega", **{f: rng.randint(-3, 4) for f in "abcd"}}
+        return {"__class__": "SO3Matrix", "matrix": {"__class__": "DyadicMatrix", "a": zo(), "b": zo(), "c": zo(), "d": zo(), "k": rng.randint(0, 4)},
+                "k": rng.randint(-2, 6), "so3mat": [[{"__class__": "ZSqrtTwo", "a": rng.choice([0, 2, 4, -2, 1, 3, 8]), "b": rng.choice([0, 2, -4, 1, 6])}
+                                                      for _ in range(3)] for _ in range(3)]}
+    SO3 = T("build", mk_so3, gen=gen_so3)
+
+    def flat(m):
+        rows = m.so3mat.items if isinstance(m.so3mat, PyList) else m.so3mat
+        return [v2(x) for row in rows for x in (row.items if isinstance(row, PyList) else row)]
+
+    def all_zero(es):
+        return And(*[And(x[0] == 0, x[1] == 0) for x in es])
+
+    def denotes(rs, rk, es, K):
+        if isinstance(K, int) and isinstance(rk, int) and rk > K:
+            return False
+        return Or(And(all_zero(es), all_zero(rs), rk == 0), And(rk <= K, *[eqv(lit2_spec(x, K - rk), y) for x, y in zip(rs, es)]))
+
+    def elems(v):
+        return [v2(x) for x in v.elements.items]
+
+    def norm_inv(v):
+        return And(v.self.k <= v.old.self.k, *[eqv(lit2_spec(x, v.old.self.k - v.self.k), y) for x, y in zip(elems(v), flat(v.old.self))])
+
+    def norm_axioms(v):
+        D = v.old.self.k - v.self.k
+        out = []
+        for x in elems(v):
+            out += lit2_axioms(x, [D - 1]) + lit2_axioms(mul_sqrt2_2(x), [D - 2])
+        return out
+
+    def mc_so3_normalize(it, args, kwargs):
+        (self_,) = args
+        es, K, ctx = flat(self_), self_.k, it.ctx
+        rows = PyList([PyList([fresh(ctx, Z2, f"norm.m{i}{j}") for j in range(3)]) for i in range(3)])
+        self_.f["so3mat"], self_.f["k"] = rows, z3.Int(ctx.fresh_name("norm.k"))
+        ctx.assume(S.to_z3(denotes(flat(self_), self_.k, es, K)))
+        return None
+
+    def mc_dm_matmul(it, args, kwargs):
+        """DyadicMatrix.__matmul__ by its contract (verified above): a normalised representation of the matrix product"""
+        x, y = args
+        ctx = it.ctx
+        r = fresh(ctx, DM, "dyadic_product")
+        cell["dm_product"] = (r, x, y)
+        return r
+    cell = {}
+    xb = {"pure_generators": True}
+    wn = World(RINGS, classes=ring, extra_builtins=xb)
+    wm = World(RINGS, classes=ring, extra_builtins=xb, modular={"SO3Matrix.normalize": mc_so3_normalize, "DyadicMatrix.__matmul__": mc_dm_matmul})
+    types = {"elements": ListT(Z2, 9)}
+    fc_norm = FnContract(wn, "SO3Matrix.normalize", [
+        Case("", {"self": SO3}, size_bounded=False, ensures=lambda o, r, nw: denotes(flat(nw.self), nw.self.k, flat(o.self), o.self.k),
+             axioms=lambda o, r, nw: [ax for x in flat(nw.self) for ax in lit2_axioms(x, [])],
+             loops={0: LoopSpec(norm_inv, types=types, axioms=norm_axioms), 1: LoopSpec(norm_inv, types=types, axioms=norm_axioms)})])
+
+    def matprod(A, B):
+        return [add2(add2(mul2(A[3 * i], B[j]), mul2(A[3 * i + 1], B[3 + j])), mul2(A[3 * i + 2], B[6 + j])) for i in range(3) for j in range(3)]
+
+    def matmul_post(o, r, nw):
+        ok = denotes(flat(r), r.k, matprod(flat(o.self), flat(o.other)), o.self.k + o.other.k)
+        if isinstance(r, Rec):
+            dm, x, y = cell["dm_product"]
+            return And(ok, r.matrix is dm, x is nw.self.matrix, y is nw.other.matrix, r is not nw.self, r is not nw.other,
+                       And(*[eqv(p, q) for p, q in zip(flat(nw.self), flat(o.self))]), nw.self.k == o.self.k)
+        prod = nw.self.matrix @ nw.other.matrix
+        return ok and r.matrix == prod and r is not nw.self and flat(nw.self) == flat(o.self) and nw.self.k == o.self.k
+    fc_matmul = FnContract(wm, "SO3Matrix.__matmul__", [
+        Case("other:SO3Matrix", {"self": SO3, "other": SO3}, ensures=matmul_post)])
+    # ---- from_matrix: the adjoint representation  R_ij = 1/2 Tr(sigma_i U sigma_j U^dagger)  of a matrix of special-unitary shape
+    # U = (1/sqrt2)^k [[u, v], [-v*, u*]]; each entry s = a w^3 + b w^2 + c w + d has sqrt2*s = ((c-a) + d sqrt2) + i((c+a) + b sqrt2).
+    # The specification is computed independently with 2x2 complex matrices over Z[sqrt2] (pairs (re, im) of pairs).
+    Z0, ONE = (0, 0), (1, 0)
+
+    def cadd(x, y):
+        return (add2(x[0], y[0]), add2(x[1], y[1]))
+
+    def cmul(x, y):
+        return (add2(mul2(x[0], y[0]), neg(mul2(x[1], y[1]))), add2(mul2(x[0], y[1]), mul2(x[1], y[0])))
+
+    def cconj(x):
+        return (x[0], neg(x[1]))
+
+    def mmul(A, B):
+        return [[cadd(cmul(A[i][0], B[0][j]), cmul(A[i][1], B[1][j])) for j in range(2)] for i in range(2)]
+    SIG = [[[(Z0, Z0), (ONE, Z0)], [(ONE, Z0), (Z0, Z0)]],                       # sigma_x
+           [[(Z0, Z0), (Z0, neg(ONE))], [(Z0, ONE), (Z0, Z0)]],                  # sigma_y
+           [[(ONE, Z0), (Z0, Z0)], [(Z0, Z0), (neg(ONE), Z0)]]]                  # sigma_z
+
+    def scaled_entry(sv):
+        """sqrt2 * s as a complex number over Z[sqrt2] (sv = ascending coefficients (d, c, b, a) of s)"""
+        d_, c_, b_, a_ = sv
+        return ((c_ - a_, d_), (c_ + a_, b_))
+
+    def adjoint_rep(m):
+        U = [[scaled_entry(vo(m.a)), scaled_entry(vo(m.b))], [scaled_entry(vo(m.c)), scaled_entry(vo(m.d))]]
+        Ud = [[cconj(U[0][0]), cconj(U[1][0])], [cconj(U[0][1]), cconj(U[1][1])]]
+        out = []
+        for i in range(3):
+            for j in range(3):
+                M = mmul(mmul(SIG[i], U), mmul(SIG[j], Ud))
+                out.append(cadd(M[0][0], M[1][1]))          # the trace (a complex number over Z[sqrt2])
+        return out
+
+    def su2_shape(m):
+        return And(eqv(vo(m.c), neg(conjo(vo(m.b)))), eqv(vo(m.d), conjo(vo(m.a))))
+
+    def from_matrix_post(o, r, nw):
+        rows = r.items if isinstance(r, PyList) else r
+        got = [v2(x) for row in rows for x in (row.items if isinstance(row, PyList) else row)]
+        spec = adjoint_rep(o.matrix)
+        # Tr(...) == 2 * entry  (the entries carry the factor 1/2 of R_ij together with the two factors sqrt2: k = 2*matrix.k + 2)
+        return And(nw.self.k == 2 * o.matrix.k + 2, *[And(eqv(t[0], (2 * g[0], 2 * g[1])), eqv(t[1], Z0)) for t, g in zip(spec, got)])
+    fc_from = FnContract(wn, "SO3Matrix.from_matrix", [
+        Case("special-unitary shape", {"self": SO3, "matrix": DM}, requires=lambda a: su2_shape(a.matrix), ensures=from_matrix_post)])
+    for fc in (fc_norm, fc_matmul, fc_from):
+        X.use_xinterp(fc)
+        plan.fn_under_contract(RINGS, fc.qualname)
+        for ob in obligations_for("C16", fc, tier):
+            plan.add(ob)
+
+
 def build(tier, seed):
     plan = Plan("C16", level="proof")
     try:
@@ -993,24 +1391,70 @@ def build(tier, seed):
         # instance of `embedding/to_omega-multiplicative`:  to_omega(sv) * to_omega(t2) == to_omega(t2 * sv)
         facts.append(eqv(mulo(to_om(sv), to_om(t2)), to_om(mul2(t2, sv))))
         return facts
+    specs_ = ring_specs()
+    div2_, divo_ = specs_["ZSqrtTwo"][5], specs_["ZOmega"][5]
+    Z2s = None
+
+    def mc_prime_factorize(it, args, kwargs):
+        """_prime_factorize by its contract (verified below): None, or a list of integers >= 2 (each passed the primality test)"""
+        ctx = it.ctx
+        if ctx.branch(z3.Bool(ctx.fresh_name("returns_none"))):
+            return None
+        fs = fresh(ctx, SeqT(Int), "factors")
+        i_ = z3.Int("pf_i")
+        ctx.assume(z3.ForAll([i_], z3.Implies(z3.And(i_ >= 0, i_ < z3.Length(fs.term)), fs.term[i_] >= 2), patterns=[fs.term[i_]]))
+        return fs
+
+    def mc_fp_zsqrt_two(it, args, kwargs):
+        """_factorize_prime_zsqrt_two by its contract (verified above): requires p >= 2; None or a list whose elements divide p"""
+        from vf.pyvc.engine import to_int_term
+        ctx = it.ctx
+        pt = to_int_term(args[0])
+        ctx.prove(pt >= 2, "pre-call:_factorize_prime_zsqrt_two(p >= 2)")
+        k_ = z3.Int(ctx.fresh_name("fp2_outcome"))
+        if ctx.branch(k_ == 0):
+            return None
+        if ctx.branch(k_ == 1):
+            raise RaiseExc("ZeroDivisionError")
+        ps = fresh(ctx, SeqT(Z2), "primes")
+        dt = wn.sort_of(Z2)
+        i_ = z3.Int("fp_i")
+        el = ps.term[i_]
+        ctx.assume(z3.And(z3.Length(ps.term) >= 1, z3.Length(ps.term) <= 2))
+        ctx.assume(z3.ForAll([i_], z3.Implies(z3.And(i_ >= 0, i_ < z3.Length(ps.term)),
+                                              div2_((dt.accessor(0, 0)(el), dt.accessor(0, 1)(el)), (pt, z3.IntVal(0)))), patterns=[el]))
+        return ps
+
+    def mc_fp_zomega(it, args, kwargs):
+        """_factorize_prime_zomega by its contract (verified above): requires p >= 2; None or an element dividing x in Z[omega]"""
+        from vf.pyvc.engine import to_int_term
+        ctx = it.ctx
+        x_, pt = args[0], to_int_term(args[1])
+        ctx.prove(pt >= 2, "pre-call:_factorize_prime_zomega(p >= 2)")
+        k_ = z3.Int(ctx.fresh_name("fpo_outcome"))
+        if ctx.branch(k_ == 0):
+            return None
+        if ctx.branch(k_ == 1):
+            raise RaiseExc("ZeroDivisionError")
+        t_ = fresh(ctx, ZO, "t")
+        ctx.assume(z3.Or(pt == 2, divo_(vo(t_), (x_.a, x_.b, 0, -x_.b))))
+        return t_
     wn = World(NORM, classes=ring_classes, functions=["_solve_diophantine"],
                modular={"ZSqrtTwo.__truediv__": mc_truediv, "ZSqrtTwo.sqrt": mc_sqrt}, extra_builtins={
-        "_prime_factorize": havoc_opt(lambda c: fresh(c, SeqT(Int), "factors")),
-        "_factorize_prime_zsqrt_two": havoc_opt(lambda c: fresh(c, SeqT(Z2), "primes")),
-        "_factorize_prime_zomega": havoc_opt(lambda c: fresh(c, ZO, "t")),
-    })
+        "_prime_factorize": mc_prime_factorize, "_factorize_prime_zsqrt_two": mc_fp_zsqrt_two, "_factorize_prime_zomega": mc_fp_zomega})
     anyexc = {k: (lambda o: True) for k in ("ZeroDivisionError", "TypeError", "AttributeError", "ValueError")}
     fc = FnContract(wn, "_solve_diophantine", [
         Case("xi:ZSqrtTwo", {"xi": Z2, "max_trials": Int},
              # every RETURNED solution satisfies  conj(t) * t == xi ; exceptions are not solutions
              ensures=lambda o, r, n: True if r is None else eqv(mulo(conjo(vo(r)), vo(r)), (o.xi.a, o.xi.b, 0, -o.xi.b)),
              raises=anyexc, axioms=sd_axioms,
-             loops={0: LoopSpec(lambda v: True), 1: LoopSpec(lambda v: True)})])
+             loops={0: LoopSpec(lambda v: True, axioms=lambda v: [  # instance (current index) of the _prime_factorize contract on the path
+                 z3.Implies(z3.And(v._i0 >= 0, v._i0 < z3.Length(v.factors.term)), v.factors.term[v._i0] >= 2)]),
+                 1: LoopSpec(lambda v: True)})])
     plan.fn_under_contract(NORM, "_solve_diophantine")
     for ob in obligations_for("C16", fc, tier):
         plan.add(ob)
-    plan.assumed_contracts += ["_prime_factorize / _factorize_prime_zsqrt_two / _factorize_prime_zomega: return None or an ARBITRARY value of "
-                               "their result type (soundness of _solve_diophantine's result does not depend on them: the code re-checks)"]
+    # (the callees of _solve_diophantine are used through their contracts verified in this module, incl. their preconditions p >= 2)
 
     # ------------------------------------------------------------------ ring laws: lemmas over the spec functions
     a, b, c, d, e, f, g, h, i, j, k, l = z3.Ints("a b c d e f g h i j k l")
@@ -1056,7 +1500,37 @@ def build(tier, seed):
     dyadic_contracts(plan, tier)
     mod_gcd_contracts(plan, tier)
     sqrt_mod_contracts(plan, tier)
+    factorize_contracts(plan, tier)
+    prime_factorize_contracts(plan, tier)
+    so3_contracts(plan, tier)
     primality_standin(plan, tier, seed)
-    plan.unverified = ["termination of the loops",
-                       "np.isclose branches of __eq__ (float comparands are outside the ring property)"]
+    plan.explanation += (" | DyadicMatrix / SO3Matrix: the denoted value (1/sqrt2)^k * M is tracked by the spec functions LIT / LITs (x * sqrt2^n by "
+                         "iteration of the linear map); normalize loops are cut by the value-preservation invariant; constructors are used "
+                         "through that verified contract.  norm_solver: ring __mod__ with the code's own quotient as witness, the Euclid loop "
+                         "of _gcd with `common divisors preserved` over an uninterpreted divisibility predicate (closure lemmas from the "
+                         "definition), Tonelli-Shanks with the invariant r*r - a*t == p*K over the spec function modpow (no primality "
+                         "assumption), the stack loop of _prime_factorize with prod(factors)*prod(stack) == n; _solve_diophantine now uses "
+                         "its callees through these verified contracts.  _primality_test vs sympy.isprime is a BOUNDED stand-in.")
+    plan.trusted_base += ["induction (meta-level) for the lemma pairs LIT-even, modpow-double; closure lemmas of divisibility from x == m*d",
+                          "defining equations of LIT / LITs / POW2 / modpow / prod / all-passed / all-positive (used by instances only)"]
+    plan.assumptions += ["_sqrt_modulo_p, _factorize_prime_*: p >= 2 (call sites pass prime factors; primality itself is NOT assumed)",
+                         "SO3Matrix.from_matrix: matrices of special-unitary shape [[u, v], [-v*, u*]] (the third row of the code's formula only uses u, v)",
+                         "DyadicMatrix.mult2k: non-zero matrices (the zero matrix is renormalised to k = 0)"]
+    plan.size_bounds = []
+    plan.notes = {"observations": [
+        "DyadicMatrix.__add__: int(math.pow(2, gap // 2)) raises OverflowError for exponent gaps >= 2048 (script /tmp/c16_overflow.py); powers "
+        "of two up to 2^1023 are exact in binary64, so below that bound the float detour is exact -- contract: OverflowError exactly then",
+        "ZSqrtTwo.__mod__: round(n / d) goes through binary64; the contract is proved for EVERY integer that expression may yield, so "
+        "inexact rounding beyond 2^53 can only select a different (possibly larger) remainder, never an incorrect one",
+        "SO3Matrix.from_matrix: `any(s.parity for s in su2_elems)` tests the bound METHOD objects (always truthy), so the else branch is "
+        "dead code; the branch taken is valid for every input, the missing call only costs a larger exponent before normalisation",
+        "F29 (fixed in /repo ac4f03271c): the former body of DyadicMatrix.mult2k did not multiply by 2^k when self.k > 0 or k < 0"]}
+    plan.unverified = ["termination of every loop (in particular _gcd, whose remainder norm is not shown to decrease, and ZOmega.normalize on 0)",
+                       "np.isclose branches of __eq__ (float comparands are outside the ring property)",
+                       "_integer_factorize (randomised Pollard rho: assumed to return None or a proper divisor), sorted() as a permutation",
+                       "_primality_test beyond the bounded stand-in (the deterministic Miller-Rabin base set is correct below 2^64 by a published "
+                       "computation, not derivable here)",
+                       "SO3Matrix.__init__/from_matrix for matrices that are not of special-unitary shape; the homomorphism "
+                       "SO3(A @ B) == SO3(A) @ SO3(B); DyadicMatrix.__add__ with complex scalars; DyadicMatrix.__eq__/__neg__",
+                       "completeness of the solver (a returned None is always allowed)"]
     return plan
